@@ -720,10 +720,11 @@ package wire
 //@   ensures [P-error-once] {C06} #nE <= old(#nE) + 1 && #nE >= old(#nE)
 //@   ensures [parse-stores] {C07} (result == nil && #nE == old(#nE) && !#failed && IsDSC(srv.Statements)) ==> (mapdom(DSC(srv.Statements).statements, cstr(arr(old(reader.Msg)), off(old(reader.Msg)))) && fresh(DSC(srv.Statements).statements[cstr(arr(old(reader.Msg)), off(old(reader.Msg)))]))
 //@   ensures [parse-calls-parser-once] {C07 C06} (result == nil && #nE == old(#nE) && !#failed) ==> #nParse == old(#nParse) + 1
+//@   ensures [error-after-parser] {C06} #nE > old(#nE) ==> (#nParse == old(#nParse) + 1 || srv.parse == nil || srv.Statements == nil)
 //@   ensures [error-starts-discard] {C06} (#nE > old(#nE) ==> srv.discard) && ((#nE == old(#nE) && !#failed) ==> srv.discard == old(srv.discard))
 //@   ensures [no-Z-unless-Sync] {C06} #nZ == old(#nZ)
 //@   ensures [err-kind] result != nil ==> !isExceeded(result)
-//@   callsite iface:wire.StatementCache.Set [stores-under-name] {C07} $name == name && $fn == statement && $ctx == ctx
+//@   callsite iface:wire.StatementCache.Set [stores-under-name] {C07 C08} $name == name && $fn == statement && $ctx == ctx
 //@   callsite callback:wire.ParseFn [query-exact] {C03 C06} $query == query && $ctx == ctx
 //@   atreturn [name-is-first-string] {C07} #nParse > old(#nParse) ==> name == cstr(arr(old(reader.Msg)), off(old(reader.Msg)))
 //@   ensures [pos-monotone] reader.Buffer.#pos >= old(reader.Buffer.#pos)
@@ -929,9 +930,9 @@ package wire
 //@   requires srv != nil && ctx != nil && WriterReady(writer)
 //@   requires [version-text] {C02} nulfree(srv.Version)
 //@   ensures [no-mutation] {C12 C15} true
-//@   ensures [count] {C12} err == nil ==> (#nOut == old(#nOut) + len(cast(ctxval(ret0, 2), "wire.Parameters")) && ctxval(ret0, 2) != nil && fresh(val(ctxval(ret0, 2))))
-//@   ensures [mandatory] {C12} err == nil ==> (mapdom(cast(ctxval(ret0, 2), "wire.Parameters"), "server_encoding") && mapdom(cast(ctxval(ret0, 2), "wire.Parameters"), "client_encoding") && mapdom(cast(ctxval(ret0, 2), "wire.Parameters"), "is_superuser") && mapdom(cast(ctxval(ret0, 2), "wire.Parameters"), "session_authorization") && cast(ctxval(ret0, 2), "wire.Parameters")["is_superuser"] == "off" && cast(ctxval(ret0, 2), "wire.Parameters")["server_encoding"] == "UTF8" && cast(ctxval(ret0, 2), "wire.Parameters")["client_encoding"] == "UTF8")
-//@   ensures [user-keys] {C12} err == nil ==> (forall k :: mapdom(params, k) ==> mapdom(cast(ctxval(ret0, 2), "wire.Parameters"), k))
+//@   ensures [count] {C12 C19} err == nil ==> (#nOut == old(#nOut) + len(cast(ctxval(ret0, 2), "wire.Parameters")) && ctxval(ret0, 2) != nil && fresh(val(ctxval(ret0, 2))))
+//@   ensures [mandatory] {C12 C19} err == nil ==> (mapdom(cast(ctxval(ret0, 2), "wire.Parameters"), "server_encoding") && mapdom(cast(ctxval(ret0, 2), "wire.Parameters"), "client_encoding") && mapdom(cast(ctxval(ret0, 2), "wire.Parameters"), "is_superuser") && mapdom(cast(ctxval(ret0, 2), "wire.Parameters"), "session_authorization") && cast(ctxval(ret0, 2), "wire.Parameters")["is_superuser"] == "off" && cast(ctxval(ret0, 2), "wire.Parameters")["server_encoding"] == "UTF8" && cast(ctxval(ret0, 2), "wire.Parameters")["client_encoding"] == "UTF8")
+//@   ensures [user-keys] {C12 C19} err == nil ==> (forall k :: mapdom(params, k) ==> mapdom(cast(ctxval(ret0, 2), "wire.Parameters"), k))
 //@   ensures [carries] err == nil ==> (CtxSame(ret0, ctx, 0) && CtxSame(ret0, ctx, 1) && CtxSame(ret0, ctx, 3))
 //@   ensures [ctx] err == nil ==> ret0 != nil
 //@   ensures [only-S] #nZ == old(#nZ) && #nE == old(#nE) && (#nOut > old(#nOut) ==> #last == 'S')
@@ -1044,7 +1045,7 @@ package wire
 //@   callsite callback:wire.SessionHandler [session-once-after-auth] {C19 C01} #nAccept == old(#nAccept) + 1 && #nSession == old(#nSession) && #nZ == old(#nZ) && $self == srv.Session
 //@   callsite (*wire.Session).consumeCommands [session-before-commands] {C19 C01 C12} #nAccept == old(#nAccept) + 1 && #nSession == old(#nSession) + 1 && #sessErrTag == 0 && val($ctx) == #sessCtx && #nZ == old(#nZ) && #nParse == old(#nParse) && #nExec == old(#nExec)
 //@   callsite callback:wire.Server.Statements [fresh-caches] {C07 C15} true
-//@   ensures [cancel-silent] {C12} #hsVersion == 80877102 ==> (OutSame() && #nParse == old(#nParse) && #nExec == old(#nExec) && #nSession == old(#nSession) && #nAccept == old(#nAccept) && #nValidate == old(#nValidate))
+//@   ensures [cancel-silent] {C12} #hsVersion == 80877102 ==> (OutSame() && #nParse == old(#nParse) && #nExec == old(#nExec) && #nSession == old(#nSession) && #nAccept == old(#nAccept) && #nValidate == old(#nValidate) && #nTerminate == old(#nTerminate))
 //@   atreturn [no-session-without-auth] {C01} #nAccept == old(#nAccept) ==> (#nParse == old(#nParse) && #nExec == old(#nExec) && #nSession == old(#nSession) && #nZ == old(#nZ))
 //@   modifies ServeGhosts(), SharedServer(srv)
 
@@ -1152,6 +1153,7 @@ package wire
 //@   props C15 C09 C04
 //@   requires srv != nil && each(srv.typeExtensions, f, f != nil)
 //@   ensures [fresh-per-connection] {C15} result != nil && fresh(result)
+//@   ensures [stock-plans] {C09} len(srv.typeExtensions) == 0 ==> (len(result.TryWrapEncodePlanFuncs) == uf("stockEncPlans", 0) && arr(result.TryWrapEncodePlanFuncs) == uf("stockEncArr", 0))
 //@   modifies nothing
 //@   loop 0
 //@     invariant [range] -1 <= $index && $index + 1 <= len(srv.typeExtensions) && types != nil && types > old(#alloc)
